@@ -456,6 +456,10 @@ def generate(rng, tier):
     for coding in (0, 1, 2):
         for rounds, n, blen in ((400, 8, 64), (100, 16, 3000)) if quick else ((60000 if coding == 2 else 20000, 16, 50), (3000, 8, 64), (500, 16, 20000)):
             cases.append(Case("neg.stress", xl(xn(rounds), xn(n), xn(blen), xn(coding)), None, {"kind": "stress/memo-cell"}))
+    # ---- streaming responses (a future attached): never a 406, the future is kept -------------------------------------------------
+    for ae in (None, b"gzip", b"identity;q=0", b"*;q=0", b"Identity;q=0, gzip", b"identity;q=0.5", b"br, identity;q=0"):
+        for with_len in (False, True):
+            cases.append(Case("neg.stream", xl(xopt(None if ae is None else xb(ae)), xbool(with_len)), None, {"kind": "stream"}))
     # ---- mime / do_compress directly ----------------------------------------------------------------------------------------
     for ct, _ in CTYPES:
         cases.append(Case("neg.mime", xb(ct), None, {"kind": "mime/table", "ctype": ct}))
@@ -678,6 +682,10 @@ def extra_oracle(c, i):
         return None
     if c.comp == "neg.mime":
         return None
+    if c.comp == "neg.stream":
+        if v[0] != "L" or len(v[1]) != 4 or v[1][0] != ("N", 200) or v[1][1] != ("N", 1):
+            return "a streaming response was not passed on as it is (status 200, future attached): %s" % i
+        return None
     if c.comp == "neg.stress":
         try:
             anomalies, total, wrong = (x[1] for x in v[1])
@@ -808,7 +816,7 @@ def signature(c, m):
         return None
     if c.comp == "neg.list_header":
         return m[:60] if "(N 0))" in m or "(N 2))" in m else None
-    if c.comp == "neg.stress":
+    if c.comp in ("neg.stress", "neg.stream"):
         return None
     return m[:40]
 
